@@ -33,6 +33,10 @@ C20_ErrCtxOnlyIfCanceled(o) == AllQ(o, LAMBDA q : q.err_at_false = "ctx" => (q.c
 C20_ErrReportsFailures(o) ==
   AllQ(o, LAMBDA q : (~Canceled(q) /\ ~q.cancel_during_close /\ q.promised > 0) => (q.err_at_false = "errs" /\ q.reported >= q.promised))
 C20_CorruptionReported(o) == AllQ(o, LAMBDA q : (OwnEnd(q) /\ q.corrupt_scanned) => q.err_at_false = "errs")
+\* a terminal state decided by a Close that had returned before the caller canceled stays what Close decided
+C20_CloseDecisionStands(o) ==
+  AllQ(o, LAMBDA q : (q.close_ret_seq # 0 /\ q.first_false # 0 /\ q.close_ret_seq < q.first_false
+                        /\ (q.cancel_seq = 0 \/ q.cancel_seq > q.close_ret_seq)) => q.err_at_false # "ctx")
 C20_CloseReturnsNil(o) == AllQ(o, LAMBDA q : ~q.close_hung /\ \A i \in 1..Len(q.close_rets) : q.close_rets[i] = "nil")
 C20_DecidedOnce(o) == AllQ(o, LAMBDA q : \A i \in 1..Len(q.err_later) : q.err_later[i] = q.err_at_false)
 \* rows are sound whatever the schedule, and complete when the query ran to its own end with nothing failing
@@ -47,7 +51,7 @@ C20_NoPanic(o) == o.panic = ""
 C21_EveryHandleClosedOnce(o) == \A i \in 1..Len(o.handles) : o.handles[i].closes = 1
 C21_NoUseAfterClose(o) == \A i \in 1..Len(o.handles) : o.handles[i].after_use = 0
 C21_NoSharedHandle(o) == \A i \in 1..Len(o.handles) : o.handles[i].max_users <= 1
-C21_IteratorReturned(o) == AllQ(o, LAMBDA q : ~q.iter_open_at_done)
+C21_IteratorReturned(o) == AllQ(o, LAMBDA q : ~q.iter_open_at_done /\ ~q.iter_open_at_false /\ ~q.iter_open_at_close_ret)
 C21_NoWorkerAlive(o) == o.leftover = 0
 C21_BudgetRestored(o) == o.probe_want >= 0 => o.probe_held = o.probe_want
 
@@ -73,6 +77,7 @@ Props(o) ==
     C20_ErrNilOnlyIfClean |-> C20_ErrNilOnlyIfClean(o), C20_ErrWrapsCtx |-> C20_ErrWrapsCtx(o),
     C20_ErrCtxOnlyIfCanceled |-> C20_ErrCtxOnlyIfCanceled(o), C20_ErrReportsFailures |-> C20_ErrReportsFailures(o),
     C20_CorruptionReported |-> C20_CorruptionReported(o), C20_CloseReturnsNil |-> C20_CloseReturnsNil(o),
+    C20_CloseDecisionStands |-> C20_CloseDecisionStands(o),
     C20_DecidedOnce |-> C20_DecidedOnce(o), C20_RowsSound |-> C20_RowsSound(o),
     C20_RowsCompleteOnCleanEnd |-> C20_RowsCompleteOnCleanEnd(o), C20_NoPanic |-> C20_NoPanic(o),
     C21_EveryHandleClosedOnce |-> C21_EveryHandleClosedOnce(o), C21_NoUseAfterClose |-> C21_NoUseAfterClose(o),
